@@ -118,13 +118,16 @@ func (r *DailyRotateRule) OutdatedFiles() []string {
 	if r.gzip {
 		buf.WriteString(gzipExt)
 	}
-	boundaryFile := buf.String()
+	// Glob 返回的是清理后的路径，边界名也须按清理后的写法比较：
+	// 否则形如 svc/../logs/app.log 的文件名会使所有备份（含最新的）都被判为过期。
+	boundaryFile := filepath.Clean(buf.String())
 
 	var outdates []string
 	current := filepath.Clean(r.filename)
 	for _, file := range files {
-		// 分隔符为空时，模式会匹配到当前日志文件自身：绝不删除它（Glob 返回的是清理后的路径，故按清理后的名字比较）。
-		if filepath.Clean(file) != current && file < boundaryFile {
+		// 分隔符为空时，模式会匹配到当前日志文件自身：绝不删除它（同样按清理后的名字比较）。
+		cleaned := filepath.Clean(file)
+		if cleaned != current && cleaned < boundaryFile {
 			outdates = append(outdates, file)
 		}
 	}
